@@ -3,6 +3,7 @@
 
 use crate::report::{Ctx, Stats};
 use humphrey::krauss::wildcard_match;
+use humphrey::route::Route;
 use rayon::prelude::*;
 use serde_json::json;
 
@@ -60,6 +61,14 @@ fn family(st: &mut Stats, name: &str, pats: &[Vec<char>], texts: &[Vec<char>]) {
                 s.transitions += 1;
                 if has_star && has_lit && !t.is_empty() {
                     s.nontrivial += 1;
+                }
+                // routes are matched through Route::route_matches: same semantics, second entry point
+                let via_route = std::panic::catch_unwind(|| ps.route_matches(ts));
+                s.transitions += 1;
+                match via_route {
+                    Ok(g) if g == want => {}
+                    Ok(g) => s.violation(format!("route_matches disagrees with the glob semantics: expected {} got {}", want, g), || json!({"family": name, "pattern": ps, "text": ts, "expected": want, "got": g, "entry_point": "Route::route_matches"})),
+                    Err(_) => s.violation("route_matches panicked", || json!({"family": name, "pattern": ps, "text": ts})),
                 }
                 match got {
                     Ok(g) if g == want => {
